@@ -100,14 +100,15 @@ class McJob:
     """TLC model checking of a spec; a violated invariant is reported for the listed properties
     (after reproduction on the real code where the job provides a replay)"""
 
-    def __init__(self, name, spec, cfg, props, workers=12, timeout=1800, xmx="8g", inv_props=None, exhaustive=True):
+    def __init__(self, name, spec, cfg, props, workers=12, timeout=1800, xmx="8g", inv_props=None, exhaustive=True, coverage=True):
         self.name, self.spec, self.cfg, self.props = name, spec, cfg, props
         self.workers, self.timeout, self.xmx = workers, timeout, xmx
         self.inv_props = inv_props or {}
         self.exhaustive = exhaustive
+        self.coverage = coverage
 
     def run(self, wd):
-        r = vlib.model_check(self.spec, self.cfg, wd, self.workers, self.timeout, self.xmx)
+        r = vlib.model_check(self.spec, self.cfg, wd, self.workers, self.timeout, self.xmx, coverage=self.coverage)
         mism = []
         if r["violated"]:
             props = self.inv_props.get(r["violated"], self.props)
@@ -518,3 +519,40 @@ def build_jobs(prop, tier):
                 ReaderJob("c20owned", [("owned-iter-fused", suite("fasta", rnd(q(tier, 400, 4000), maxrec=4, maxfield=4, damage=30), [3, 8, 64], {"fixed": [ITER, INTO]}, chunks=[[0]], slots=1, extra=3), 2),
                                        ("owned-iter-fused-fq", suite("fastq", rnd(q(tier, 400, 4000), maxrec=4, maxfield=4, damage=30), [3, 8, 64], {"fixed": [ITER, INTO]}, chunks=[[0]], slots=1, extra=3), 2)])]
     return _old_build_jobs2(prop, tier)
+
+
+# ------------------------------------------------------------------------------------------
+# model-checking jobs of the reader specifications
+
+def mc_readera(tier):
+    # Judge is evaluated in every action; TLC's cost statistics (-coverage) make that very slow
+    return McJob("mcreadera", "MCReaderA", "MCReaderA_" + tier, ["C01", "C02", "C04", "C05"], workers=8, timeout=q(tier, 900, 7200), xmx="8g", coverage=False,
+                 inv_props={"NoFalseAlarm": ["C01", "C02", "C04", "C05"], "Sensitive": ["C01", "C02", "C04", "C05"], "Consequences": ["C01", "C02", "C04", "C05"]})
+
+
+def mc_fasta_b(tier):
+    return McJob("fastareader", "FastaReader", "FastaReader_" + tier, ["C01"], workers=10, timeout=q(tier, 900, 7200), xmx="10g", coverage=False,
+                 inv_props={"RetOK": ["C01", "C03", "C06"], "PosOK": ["C05", "C17", "C03"], "GrowOnlyWhenNeeded": ["C09"], "BufInv": ["C06"]})
+
+
+def mc_fastq_b(tier):
+    return McJob("fastqreader", "FastqReader", "FastqReader_" + tier, ["C02"], workers=10, timeout=q(tier, 900, 7200), xmx="10g", coverage=False,
+                 inv_props={"RetOK": ["C02", "C03", "C06"], "FieldsOK": ["C17", "C03"], "PosOK": ["C05", "C03"], "GrowOnlyWhenNeeded": ["C09"], "BufInv": ["C06"]})
+
+
+_old_build_jobs3 = build_jobs
+
+
+def build_jobs(prop, tier):
+    J = _old_build_jobs3(prop, tier)
+    if prop == "C01":
+        J = [mc_readera(tier), mc_fasta_b(tier)] + J
+    elif prop == "C02":
+        J = [mc_readera(tier), mc_fastq_b(tier)] + J
+    elif prop in ("C03", "C05", "C09", "C17"):
+        J = [mc_fasta_b(tier), mc_fastq_b(tier)] + J
+    elif prop == "C04":
+        J = [mc_readera(tier)] + J
+    elif prop == "C06":
+        J = [mc_fasta_b(tier), mc_fastq_b(tier)] + J
+    return J
